@@ -517,13 +517,13 @@ CHECKS["C12"] = {
 CHECKS["C10"] = {
     "pkg": "./c10/",
     "level": "exploration",
-    "technique": "property-based testing (rapid): generated series sets + SQL tag conditions parsed by the production parser, executed through the in-process root/leaf query path over generated flush/compaction/restart histories; brute-force reference evaluation + metamorphic relation between index states",
+    "technique": "property-based testing (rapid): generated series sets + SQL tag conditions parsed by the production parser, executed through the in-process root/leaf query path over generated flush/compaction/restart histories; brute-force reference evaluation + metamorphic relation between index states; harness-owned interleavings inside index flush/compaction and inside lookups (kv FS hooks + index/c10_w3_verif.go)",
     "rule": ("case = 5-200 series of 1-3 metrics (shared/missing keys, values sharing prefixes/suffixes, unicode, '*', quotes, commas, per-series uid) in 1-5 write batches, "
              "2-4 conditions generated as SQL text (=, !=, <>, like/not like with x*, *x, *x*, x, *, **; in/not in; =~/!~; and/or/parentheses, generated depth <= 4, also unparenthesised chains), "
              "history of <= 16 steps (write, bare PrepareFlush, full/meta/index/data flush of all or some shards, synchronous compaction of the dictionary/index kv families with or without obsolete-file deletion, "
              "graceful restart, re-write of known series); every condition is checked after every step: group by uid = brute force, group by (uid,k)/(k)/(k1,k2) values and point counts, same answer as in earlier states of the same data. "
              "non-trivial = at some checkpoint the condition selects a non-empty proper subset, has >= 2 atoms, >= 1 atom is like/regex/negated, and the index is not purely in memory (a file exists or a PrepareFlush is pending); "
-             "distinct = hash(series, conditions, history). TestTagFilterManySeries (thorough): one metric with 65536+N or 131072+N series, tagged series at every container boundary."),
+             "distinct = hash(series, conditions, history). TestTagFilterManySeries (thorough): one metric with 65536+N or 131072+N series, tagged series at every container boundary. About every third index flush / compaction step has 1-3 plans of operations nested inside: at a drawn harness-owned point (file-system operation of a dictionary/index kv family, or a call of an index store to its kv family/flusher: newFlusher, commit, getSnapshot, release; before/after, n-th occurrence) the flush is parked and 1-3 pre-drawn operations (condition checks against the model, probe conditions of depth 0-1, re-writes, writes of new series) run as another client; points where the store lock is held run right after the call; after such a step every written tag value is asked for by `k in (...)` (dictionary sweep). TestTagFilter also has the step 'lookup with a complete meta/index flush nested inside' at the lookup's getSnapshot points of the inverted/forward/metric/schema families."),
     "level_text": ("Generated-input and generated-history exploration: each case runs 20-60 statements through the production parser, root planner, leaf pipeline, dictionaries, posting lists, forward index and grouping, "
                    "in memory / prepared / flushed / two-files / compacted / restarted / mixed index states (states are classified from the real file counts), and compares with an independent brute-force model."),
     "level_note": ("Trusted: sim/node loop-back transport, Go regexp as the regex semantics (the memory path uses rp.Match). `like` semantics taken from index/kv_store.go (no documentation exists): one leading/trailing '*' is a wild card. "
@@ -533,7 +533,8 @@ CHECKS["C10"] = {
                     "tag values are valid UTF-8, non-empty (ingestion rejects empty), condition literals contain no single quote or line break (not expressible in the grammar)",
                     "a bare PrepareFlush is always completed by a flush before a restart (database.Close waits for a running flush)",
                     "fresh database name per case (lindb leaks the per-database query pools; same-name pools share the workers_alive gauge)",
-                    "all points at one timestamp, value 1 (point counts identify double counting)"],
+                    "all points at one timestamp, value 1 (point counts identify double counting)",
+                    "an operation nested at a point runs to completion while the flush/lookup is parked (seam granularity, no preemption inside lindb functions); flush-inside-lookup only with one shard; no data-family flush and no compaction inside a lookup (posting lists are zero-copy views of mapped files that outlive the lookup's snapshot: a compaction completing inside a lookup can unmap them - observation, C02/C03 territory)"],
     "tests": [
         {"name": "TestTagFilter", "quick": 800, "thorough": {"checks": 3000, "shards": 8}},
         {"name": "TestTagFilterMultiShard", "quick": 600, "thorough": {"checks": 2500, "shards": 6}},
